@@ -68,6 +68,7 @@ type driver struct {
 	gotLen   atomic.Int64
 	readErr  error
 	accepted []byte // bytes the Writes reported as accepted, concatenated
+	judged   bool
 }
 
 func (d *driver) violate(key, format string, a ...any) {
@@ -491,6 +492,11 @@ func runScenario(sc scenario) (out outcome) {
 			ev = ev[len(ev)-25:]
 		}
 		d.out.eventsTail = ev
+		if !d.judged {
+			for _, v := range d.sim.Violations() {
+				d.out.viol = append(d.out.viol, vrt.Violation{Key: v.Key, Desc: fmt.Sprintf("[%s %s] simulated TNC: %s", d.sc.Name, d.sc.Mode, v.Desc)})
+			}
+		}
 		d.out.evicted = evictions.Load() != ev0
 		d.out.rxBytes, d.out.txBytes = len(d.got), len(d.accepted)
 		out = d.out
@@ -640,9 +646,12 @@ func runScenario(sc scenario) (out outcome) {
 	if !d.await(readerDone, "read-eof") {
 		return
 	}
-	done = d.goSafe(func() { d.tnc.Close() })
-	if !d.await(done, "tnc-close") {
-		return
+	if sc.End == "close" || sc.End == "remote" {
+		// (after a hang-up the library shuts the TNC down by itself, concurrently: not re-closed here)
+		done = d.goSafe(func() { d.tnc.Close() })
+		if !d.await(done, "tnc-close") {
+			return
+		}
 	}
 	if ln != nil {
 		go func() { defer func() { recover() }(); ln.Accept() }() // releases the library's listener goroutine
@@ -655,8 +664,10 @@ func runScenario(sc scenario) (out outcome) {
 func (d *driver) judge(partial []byte) {
 	sc := d.sc
 	d.mu.Lock()
+	d.judged = true
 	for _, v := range d.out.viol {
 		if len(v.Key) > 6 && v.Key[:6] == "panic:" { // a driver goroutine died in library code: nothing below would add information
+			d.judged = false
 			d.mu.Unlock()
 			return
 		}
